@@ -188,10 +188,21 @@ static const Ctx& ctxRef(const ffsm2::EmptyContext&) { return g_ctx0; }
 #define CFG_CAP            // H_CAP = 0: no TaskCapacityN<> at all - the library then takes the number of states as the task capacity
 #endif
 #define H_CAP_EFFECTIVE (H_CAP > 0 ? H_CAP : H_N)
+#ifndef H_ORDER
+#define H_ORDER 0      // the order in which the configuration options are chained: 0 = context, activation, limit, capacity, payload; 1 = payload, capacity, limit, activation, context
+#endif
 #if H_CTX == 3
+#if H_ORDER
+using Config = ffsm2::Config CFG_PAYLOAD CFG_CAP ::SubstitutionLimitN<H_LIMIT> CFG_MANUAL;
+#else
 using Config = ffsm2::Config CFG_MANUAL ::SubstitutionLimitN<H_LIMIT> CFG_CAP CFG_PAYLOAD;
+#endif
+#else
+#if H_ORDER
+using Config = ffsm2::Config CFG_PAYLOAD CFG_CAP ::SubstitutionLimitN<H_LIMIT> CFG_MANUAL ::ContextT<CtxT>;
 #else
 using Config = ffsm2::Config::ContextT<CtxT> CFG_MANUAL ::SubstitutionLimitN<H_LIMIT> CFG_CAP CFG_PAYLOAD;
+#endif
 #endif
 using M = ffsm2::MachineT<Config>;
 
